@@ -29,6 +29,7 @@ func init() {
 	register("C13", true, checkC13)
 	register("C05", true, checkC05)
 	register("C20", true, checkC20)
+	register("C07", true, checkC07)
 }
 
 func main() {
